@@ -136,7 +136,9 @@ class _EpydocLinker(DocstringLinker):
     def link_to(self, identifier: str, label: "Flattenable") -> Tag:
         fullID = self.obj.expandName(identifier)
 
-        target = self.obj.system.objForFullName(fullID)
+        # resolveName() also finds an object that has been moved by a re-export 
+        # after the name was imported from its original location.
+        target = self.obj.resolveName(identifier)
         if target is not None:
             return taglink(target, self.page_url, label)
 
